@@ -26,6 +26,11 @@ add m17_abbr_flag        style/template.py 's/style.format_name(person, style.ab
 add m18_lastfirst_order  style/names/lastfirst.py "s/name_part(before=', ') \[person.rich_lineage_names\],/name_part(before=' ') [person.rich_lineage_names],/" mutant
 add m19_dashify_re       style/formatting/unsrt.py "s/dash_re = re.compile(r'-+')/dash_re = re.compile(r'-')/" mutant
 add m20_missing_msg_key  style/template.py "s/'missing {0} in {1}'.format(field_name, getattr(entry, 'key', '<unnamed>'))/'missing {0} in {1}'.format(field_name, getattr(entry, 'type', '<unnamed>'))/" mutant
+add m21_lastfirst_noabbr style/names/lastfirst.py "s/name_part(before=', ', abbr=abbr) \[person.rich_first_names + person.rich_middle_names\]/name_part(before=', ') [person.rich_first_names + person.rich_middle_names]/" mutant
+add m22_namepart_tie     style/names/__init__.py "s/return Text(before, parts, tie_or_space(parts, nbsp, ' '))/return Text(before, parts, nbsp)/" mutant
+add m23_abbreviate_two   textutils.py "s/            return part\[0\] + '.'/            return part[:2] + '.'/" mutant
+add m24_empty_cites_all  style/formatting/__init__.py 's/        if citations is None:/        if not citations:/' mutant
+add m25_names_inherit    style/template.py "s/        persons = context\['entry'\].persons\[role\]/        persons = context['entry'].persons[role] if role in context['entry'].persons else [__import__('pybtex.database').database.Person(x) for x in context['entry']._find_field(role, bib_data=context.get('bib_data')).split(' and ')]/" mutant
 add h01_rename_local     style/template.py '/^def join/,/^@node/ s/\bparts\b/pieces/g' harmless
 add h02_message_text     style/template.py "s/'missing {0} in {1}'.format/'field {0} is missing in entry {1}'.format/" harmless
 add h03_reorder          style/formatting/__init__.py "s/        self.abbreviate_names = abbreviate_names/        self.abbreviate_names = bool(abbreviate_names) or False/" harmless
@@ -35,7 +40,7 @@ run_one() {
   rm -rf $d; mkdir -p $d; cp -r /repo/pybtex $d/pybtex
   sed -i "${SED[$n]}" $d/pybtex/${FILE[$n]}
   if diff -rq /repo/pybtex $d/pybtex >/dev/null; then echo "$n: NOT APPLIED"; rm -rf $d; return; fi
-  out=$(cd $HERE && VERIF_REPO=$d VERIF_NPROC=${VERIF_NPROC:-8} timeout 1500 ./check C07 2>&1); rc=$?
+  out=$(cd $HERE && VERIF_REPO=$d VERIF_EVIDENCE_DIR=$d/ev VERIF_REPLAY_DIR=$d/rp VERIF_NPROC=${VERIF_NPROC:-8} timeout 1500 ./check C07 2>&1); rc=$?
   viol=$(echo "$out" | grep -c '^VIOLATION')
   kinds=$(cd $HERE && for f in $(echo "$out" | grep '^VIOLATION' | sed 's/.*replay=\([^ ]*\).*/\1/'); do python3 -c "import json,sys; r=json.load(open('$f')); print(r['kind']+':'+str(r.get('function',''))+(':failing-input' if r.get('failing_input_found') else ''))"; done | sort | uniq -c | tr '\n' ';')
   echo "$n (${KIND[$n]}): rc=$rc violations=$viol $kinds"
